@@ -269,11 +269,23 @@ def readCourses (cdata : List (String × J)) (trackId : Nat) (o : Opts) : M Cour
 
 /-! ### registrations -/
 
+/-- index (counted from `k`) of the LAST element of the list satisfying `p`: a later hit takes
+    precedence over the head.  This is what `collect::<HashMap<_, _>>()` does with repeated keys:
+    the pairs are inserted in order, so the last one stays. -/
+def lastIdx {α : Type} (p : α → Bool) : List α → Nat → Option Nat
+  | [], _ => none
+  | a :: l, k =>
+    match lastIdx p l (k + 1) with
+    | some i => some i
+    | none => if p a then some k else none
+
 /-- `course_index_by_id`: `some (some i)` kept course, `some none` skipped course, `none` unknown id.
+    The map is collected from the kept courses in sorted order, so of two kept courses with the same
+    database id (keys such as "01" and "1") the LAST one wins.
     Skipped ids are inserted after the kept ones, so they win. -/
 def courseIndex (co : CoursesOut) (id : Nat) : Option (Option Nat) :=
   if co.skipped.contains id then some none
-  else match co.courses.findIdx? (fun c => c.dbid == id) with
+  else match lastIdx (fun c => c.dbid == id) co.courses 0 with
     | some i => some (some i)
     | none => none
 
